@@ -197,6 +197,32 @@ def rules(ck, P):
                 lossy = [n for n in ir.walk_nodes(a["body"]) if n.get("k") in ("mcall", "call") and any((n.get("q") or "").endswith(w) for w in LOSSY)]
                 ck.check(not lossy, "P1", fq + "|delegate-result", "the wrapped callback's result reaches the delegate unchanged",
                          "the callback's Option/Result is collapsed by %s before the delegate sees it: a None/Err result becomes indistinguishable from a real value" % [n.get("name") or n.get("q") for n in lossy], ir.loc(a))
+    # ---- P2 (callers): a callback handed to a parallel operator runs concurrently on many items; if it captures shared mutable state
+    # (a memo of the last input/output, a counter, a buffer) one item's result can depend on another item or on timing
+    par_all = {b["q"] for b in par} | {b["q"] for b in ts if b["q"].rsplit("::", 1)[-1] in ("from_coord_iter_parallel",)}
+    n_cb = 0
+    for b in P.bodies:
+        if not P.is_workspace(b["q"]) or "::tests::" in b["q"] or b.get("target") not in (None, "lib", "bin") or b.get("self_adt", "").endswith("::tile_stream::TileStream"):
+            continue
+        lets_b = {}
+        for n in ir.walk_nodes(b["body"]):
+            if n.get("k") == "let" and "init" in n and n["pat"].get("k") == "bind":
+                lets_b[n["pat"]["hid"]] = n
+        for n in ir.walk_nodes(b["body"]):
+            if n.get("k") not in ("mcall", "call") or (n.get("rvq") or n.get("q")) not in par_all:
+                continue
+            for a in n.get("a", ()):
+                if a.get("k") != "closure":
+                    continue
+                n_cb += 1
+                shared = []
+                for c in a.get("caps", []):
+                    t_ = c["t"]
+                    if any(w in t_ for w in ("Mutex<", "RwLock<", "Atomic", "Cell<", "RefCell<", "mpsc::", "Sender<", "Receiver<")):
+                        shared.append((c["var"], t_.rsplit("::", 1)[-1][:60]))
+                ck.check(not shared, "P2", "%s|callback#%d" % (b["q"], n_cb), "callback passed to %s captures no shared mutable state (%s)" % ((n.get("rvq") or n.get("q")).rsplit("::", 1)[-1], [c["var"] for c in a.get("caps", [])]),
+                         "the callback passed to the parallel operator %s captures shared mutable state %s: concurrent items can read each other's results" % ((n.get("rvq") or n.get("q")).rsplit("::", 1)[-1], shared), ir.loc(a))
+    ck.anchor("P2", "workspace callbacks passed to parallel operators", list(range(n_cb)), 2)
     # ---- P4
     feb = [b for b in ts if b["q"].endswith("::for_each_buffered")]
     if ck.anchor("P4", "for_each_buffered", feb, 1):
